@@ -1459,3 +1459,209 @@ MUTANTS += [
         return Headers(headers)
 ''')]},
 ]
+
+
+# ---------------------------------------------------------------------------------------------------------------------
+# round 5 (held-out ordinary-style refactorings): R1.11 does not depend on how the Content-Disposition options are obtained
+# (what is compared is the value computed from the header block; arguments derived from it are functions of it), the header
+# stage may sit in a helper that reads the buffer itself; R1.9 follows the collecting list to the join wherever it travels
+# (local copy, helper parameter by position or keyword, module function, nested function, two levels); R1.8 / R1.2 read
+# `self.state = X if c else self.state` and a table indexed by the state; min(..., default=) in the anchor.
+
+_POH = '''                disposition, extra = parse_options_header(
+                    headers["content-disposition"]
+                )
+'''
+_NAMES = '''                name = t.cast(str, extra.get("name"))
+                filename = extra.get("filename")
+'''
+_BAD_HEADER_LOOP = '''        for line in data.splitlines():
+            name, _, value = line.decode().partition(":")
+            headers.append((name.strip(), value.strip()))
+        return Headers(headers)
+'''
+_BAD11 = [(M, _HEADER_LOOP, _BAD_HEADER_LOOP)]
+_FAIL = "    def fail(self, message: str) -> te.NoReturn:"
+_DECODE_HELPER = '''    def _decode_field(self, part: Field, chunks: list[bytes]) -> str:
+        value = b"".join(chunks)
+        return value.decode(self.get_part_charset(part.headers), "replace")
+
+'''
+_BAD9 = [(F, 'b"".join(chunks)', 'b" ".join(chunks)')]
+_MORE = "            if more_data:\n                self.state = State.DATA\n"
+
+
+def _pair(name: str, edits: list, rule: str, bad: list, bad_name: str) -> None:
+    TWINS.append({"name": name, "edits": edits})
+    MUTANTS.append({"name": bad_name, "expect": rule, "edits": edits + bad})
+
+
+_pair("disposition-options-by-index-from-get", [
+    (M, _POH, '                options = parse_options_header(headers.get("content-disposition"))[1]\n'),
+    (M, _NAMES, '                name = t.cast(str, options.get("name"))\n                filename = options.get("filename")\n')],
+    "R1.11", _BAD11, "options-by-index-shape-header-lines-not-skipped")
+_pair("disposition-options-from-a-static-helper-given-the-headers", [
+    (M, _POH, '                extra = self._disposition_options(headers)\n'),
+    (M, _PH, '''    @staticmethod
+    def _disposition_options(headers: Headers) -> dict[str, str]:
+        _, options = parse_options_header(headers["content-disposition"])
+        return options
+
+''' + _PH)], "R1.11", _BAD11, "options-helper-shape-header-lines-not-skipped")
+_pair("header-stage-in-a-helper-that-reads-the-buffer-itself", [
+    (M, _STAGE_CALL, "                headers = self._headers_up_to(match)\n"),
+    (M, _PH, '''    def _headers_up_to(self, found: t.Match[bytes]) -> Headers:
+        raw = self.buffer[: found.start()]
+        return self._parse_headers(bytes(raw))
+
+''' + _PH)], "R1.11", _BAD11, "stage-helper-reads-the-buffer-header-lines-not-skipped")
+_pair("headers-and-their-end-returned-as-a-pair", [
+    (M, '''                headers = self._parse_headers(self.buffer[: match.start()])
+                # The final header ends with a single CRLF, however a
+                # blank line indicates the start of the
+                # body. Therefore the end is after the first CRLF.
+                headers_end = (match.start() + match.end()) // 2
+''', "                headers, headers_end = self._split_headers(match)\n"),
+    (M, _PH, '''    def _split_headers(self, found: t.Match[bytes]) -> tuple[Headers, int]:
+        headers = self._parse_headers(self.buffer[: found.start()])
+        return headers, (found.start() + found.end()) // 2
+
+''' + _PH)], "R1.11", _BAD11, "headers-pair-helper-header-lines-not-skipped")
+_pair("event-arguments-in-a-dict-with-a-derived-name", [
+    (M, _POH, '                extra = parse_options_header(headers["content-disposition"])[-1]\n'),
+    (M, _EVENT_CHOICE, '''                common = {"headers": headers, "name": name}
+                if filename is not None:
+                    event = File(filename=filename, **common)
+                else:
+                    event = Field(**common)
+''')], "R1.11", _BAD11, "arguments-dict-shape-header-lines-not-skipped")
+_pair("header-parser-as-a-module-function", [
+    (M, _STAGE_CALL, "                headers = _parse_part_headers(bytes(self.buffer[: match.start()]))\n"),
+    (M, "class MultipartDecoder:\n", '''def _parse_part_headers(block: bytes) -> Headers:
+    pairs: list[tuple[str, str]] = []
+    for line in HEADER_CONTINUATION_RE.sub(b" ", block).splitlines():
+        line = line.strip()
+        if not line:
+            continue
+        name, _, value = line.decode().partition(":")
+        pairs.append((name.strip(), value.strip()))
+    return Headers(pairs)
+
+
+class MultipartDecoder:
+''')], "R1.11", [(M, "        if not line:\n            continue\n", "")], "module-function-parser-keeps-empty-lines")
+
+_pair("field-joined-in-a-helper-given-the-list-by-keyword", [
+    (F, _JOIN, "                            value = self._decode_field(part=current_part, chunks=container)\n"),
+    (F, _FAIL, _DECODE_HELPER + _FAIL)], "R1.9", _BAD9, "join-helper-puts-a-blank-between-the-pieces")
+_pair("field-joined-through-a-local-copy-of-the-list", [(F, _JOIN, '''                            chunks = t.cast("list[bytes]", container)
+                            value = b"".join(chunks).decode(
+                                self.get_part_charset(current_part.headers), "replace"
+                            )
+''')], "R1.9", _BAD9, "local-copy-joined-with-a-blank")
+_pair("field-joined-in-a-module-function", [
+    (F, _JOIN, "                            value = _join_field(container, self.get_part_charset(current_part.headers))\n"),
+    (F, "class MultiPartParser:\n", '''def _join_field(chunks: "list[bytes]", charset: str) -> str:
+    return b"".join(chunks).decode(charset, "replace")
+
+
+class MultiPartParser:
+''')], "R1.9", [(F, 'b"".join(chunks)', 'b"".join(c.rstrip() for c in chunks)')], "module-function-strips-each-piece-when-joining")
+_pair("field-joined-two-helpers-down", [
+    (F, _JOIN, "                            value = self._field_value(current_part, container)\n"),
+    (F, _FAIL, '''    def _field_value(self, part: Field, pieces: t.Any) -> str:
+        return self._decode_field(part, t.cast("list[bytes]", pieces))
+
+''' + _DECODE_HELPER + _FAIL)], "R1.9", _BAD9, "two-helpers-down-joined-with-a-blank")
+_pair("field-joined-in-a-nested-function", [
+    (F, "        fields = []\n        files = []\n", '''        fields = []
+        files = []
+
+        def field_text(part: Field, chunks: "list[bytes]") -> str:
+            return b"".join(chunks).decode(self.get_part_charset(part.headers), "replace")
+'''), (F, _JOIN, "                            value = field_text(current_part, t.cast(\"list[bytes]\", container))\n")],
+    "R1.9", _BAD9, "nested-function-joins-with-a-blank")
+_pair("end-of-field-in-a-helper-given-both-lists", [(F, '''                        if isinstance(current_part, Field):
+''' + _JOIN + '''                            fields.append((current_part.name, value))
+''', '''                        if isinstance(current_part, Field):
+                            self._finish_field(current_part, container, fields)
+'''), (F, _FAIL, '''    def _finish_field(self, part: Field, chunks: t.Any, fields: list) -> None:
+        value = b"".join(chunks).decode(self.get_part_charset(part.headers), "replace")
+        fields.append((part.name, value))
+
+''' + _FAIL)], "R1.9", _BAD9, "end-of-field-helper-joins-with-a-blank")
+MUTANTS.append({"name": "join-helper-decodes-the-pieces-one-by-one", "expect": "R1.9", "edits": [
+    (F, _JOIN, "                            value = self._decode_field(current_part, container)\n"),
+    (F, _FAIL, '''    def _decode_field(self, part: Field, chunks: list[bytes]) -> str:
+        charset = self.get_part_charset(part.headers)
+        return "".join(c.decode(charset, "replace") for c in chunks)
+
+''' + _FAIL)]})
+
+_pair("state-kept-by-a-conditional-expression", [(M, _MORE, "            self.state = State.DATA if more_data else self.state\n")],
+      "R1.8", [(M, "State.DATA if more_data else self.state", "State.DATA if more_data and data else self.state")], "conditional-state-leaves-the-start-state-only-with-payload")
+_pair("start-flag-from-a-table-indexed-by-the-state", [(M, _DS_BRANCH + _D_BRANCH, '''        elif self.state in _DATA_STATES:
+            start = _DATA_STATES[self.state]
+            data, del_index, more_data = self._parse_data(self.buffer, start=start)
+            del self.buffer[:del_index]
+            if start:
+                event = Data(data=data, more_data=more_data)
+                if more_data:
+                    self.state = State.DATA
+            elif data or not more_data:
+                event = Data(data=data, more_data=more_data)
+'''), (M, "class MultipartDecoder:\n", "_DATA_STATES = {State.DATA_START: True, State.DATA: False}\n\n\nclass MultipartDecoder:\n")],
+      "R1.8", [(M, "                if more_data:\n                    self.state = State.DATA\n", "                if more_data and data:\n                    self.state = State.DATA\n")],
+      "table-shape-leaves-the-start-state-only-with-payload")
+_pair("both-data-states-handled-by-one-helper", [(M, _DS_BRANCH + _D_BRANCH, '''        elif self.state in (State.DATA_START, State.DATA):
+            event = self._next_data()
+'''), (M, _PH, '''    def _next_data(self) -> Event:
+        start = self.state == State.DATA_START
+        data, del_index, more_data = self._parse_data(self.buffer, start=start)
+        del self.buffer[:del_index]
+        if start and more_data:
+            self.state = State.DATA
+        if start or data or not more_data:
+            return Data(data=data, more_data=more_data)
+        return NEED_DATA
+
+''' + _PH)], "R1.8", [(M, "        if start and more_data:\n", "        if start and more_data and data:\n")], "data-helper-leaves-the-start-state-only-with-payload")
+_pair("deletion-through-a-consume-helper", [
+    (M, "            del self.buffer[:del_index]\n            event = Data(data=data, more_data=more_data)\n            if more_data:", "            self._consume(del_index)\n            event = Data(data=data, more_data=more_data)\n            if more_data:"),
+    (M, _PH, "    def _consume(self, count: int) -> None:\n        del self.buffer[:count]\n\n" + _PH)],
+    "R1.8", [(M, _MORE, "            if more_data and len(data) > 0:\n                self.state = State.DATA\n")], "consume-helper-shape-leaves-the-start-state-only-with-payload")
+
+_pair("anchor-min-of-the-found-positions-with-a-default", [(M, _ANCHOR, '''        found = [i for i in (data.rfind(b"\\n"), data.rfind(b"\\r")) if i != -1]
+        return min(found, default=len(data))
+''')], "R1.10", [(M, "min(found, default=len(data))", "max(found, default=len(data))")], "anchor-max-of-the-found-positions-with-a-default")
+
+# the anchor is told where the region starts instead of being handed a copy of it
+_ANCHOR_DEF = "    def last_newline(self, data: bytes) -> int:\n" + _ANCHOR
+_HOLD_B_LINE = "            else:\n                data_end = del_index = self.last_newline(data[data_start:]) + data_start\n"
+_HOLD_A_LINE = "            data_end = del_index = self.last_newline(data[data_start:]) + data_start\n            # If amount"
+_pair("anchor-given-the-buffer-and-the-start-of-the-region", [
+    (M, _ANCHOR_DEF, '''    def last_newline(self, data: bytes, start: int = 0) -> int:
+        nl = data.rfind(b"\\n", start)
+        cr = data.rfind(b"\\r", start)
+        end = len(data)
+        return min(end if nl < 0 else nl, end if cr < 0 else cr)
+'''), (M, _HOLD_A_LINE, "            data_end = del_index = self.last_newline(data, data_start)\n            # If amount"),
+    (M, _HOLD_B_LINE, "            else:\n                data_end = del_index = self.last_newline(data, data_start)\n")],
+    "R1.10", [(M, "        return min(end if nl < 0 else nl, end if cr < 0 else cr)\n", "        return nl if nl >= 0 else end\n")], "anchor-with-a-start-looks-for-the-lf-only")
+_pair("anchor-with-a-keyword-only-start", [
+    (M, _ANCHOR_DEF, '''    def last_newline(self, data: bytes, *, since: int) -> int:
+        found = [i for i in (data.rfind(b"\\n", since), data.rfind(b"\\r", since)) if i >= 0]
+        return min(found) if found else len(data)
+'''), (M, _HOLD_A_LINE, "            data_end = del_index = self.last_newline(data, since=data_start)\n            # If amount"),
+    (M, _HOLD_B_LINE, "            else:\n                data_end = del_index = self.last_newline(data, since=data_start)\n")],
+    "R1.10", [(M, "        return min(found) if found else len(data)\n", "        return max(found) if found else len(data)\n")], "anchor-with-a-keyword-only-start-takes-the-later-byte")
+# the joined pieces: copies of the list and of its elements, empty pieces dropped
+TWINS += [
+    {"name": "pieces-joined-from-a-tuple-copy-through-map-bytes", "edits": [(F, '                            value = b"".join(container).decode(', '                            value = b"".join(map(bytes, tuple(container))).decode(')]},
+    {"name": "empty-pieces-dropped-when-joining", "edits": [(F, '                            value = b"".join(container).decode(', '                            value = b"".join(piece for piece in container if piece).decode(')]},
+    {"name": "payload-written-as-a-memoryview-copy", "edits": [(F, "                    _write(event.data)\n", "                    _write(memoryview(event.data).tobytes())\n")]},
+]
+MUTANTS += [
+    {"name": "pieces-stripped-by-map-when-joined", "expect": "R1.9", "edits": [(F, '                            value = b"".join(container).decode(', '                            value = b"".join(map(bytes.strip, container)).decode(')]},
+    {"name": "last-byte-of-each-piece-dropped-when-joined", "expect": "R1.9", "edits": [(F, '                            value = b"".join(container).decode(', '                            value = b"".join(piece[:-1] for piece in container if piece).decode(')]},
+]
